@@ -138,3 +138,22 @@ def x_max_min_star(a: int, items: list):
 def x_sum_filtered(items: list, d: int, k: int):
     # sum of a filtered, mapped generator over a slice (Columns.get_cursor_coords)
     return sum(d + w for w in items[:k] if w > 0)
+
+
+class XBox:
+    """Receiver of x_iadd_attr (a plain object with one list field)."""
+
+    def x_iadd_attr(self, v: int):
+        # `obj.attr += [..]` on a list extends the list object in place: the alias taken before sees the new items
+        alias = self.items
+        self.items += [v, v + 1]
+        return (alias is self.items, list(alias), len(alias))
+
+
+def x_iadd_subscript(items: list, v: int):
+    # the same through a subscript target: box[0] += [..] extends the list held in the slot, in place
+    a = list(items)
+    box = (1, 2)
+    holder = [a, box]
+    holder[0] += [v]
+    return (holder[0] is a, list(a), len(holder))
